@@ -47,7 +47,7 @@ func c01DoubleCrashScenario(t *testing.T, keySeed uint64) (res c01DCResult) {
 	res.KeySeed = keySeed
 	cfg := engaConfig{Nodes: 3, Accts: []int{2, 2, 1}, Stake: []uint64{1e6, 1e6, 1e6, 1e6, 1e6}, KeySeed: keySeed}
 	s := engaNewSimHook(t, cfg, func(s *engaSim) { s.traceOn = true; c01Attach(s) })
-	ent := func() uint64 { return 0 }
+	ent := func() uint64 { return 1 }
 	// phase 1: cert votes never reach nodes 0 and 1
 	s.hold = func(m *engaMsg) bool {
 		st, _, ok := c01VoteStep(m)
